@@ -43,7 +43,67 @@ def base_env():
     env.allow_inline('bert_e.workflow.pr_utils:_send_bot_status')
     # loop invariant of find_comment (loop #0)
     env.loop('bert_e.workflow.pr_utils:find_comment', 0, inv_find_comment)
+    install_reactor(env)
     return env
+
+
+# ---------------------------------------------------------------- handle_comments
+HC = 'bert_e.workflow.gitwaterflow:handle_comments'
+
+
+def install_reactor(env):
+    from bert_e import reactor as R
+    env.classes['Settings']['fields'].update({'admins': 'set[str]'})
+    env.add_class('ReactorObj', fields={})
+    env.ctors[R.Reactor] = lambda I, cls: I.alloc_obj(None, 'ReactorObj', {})
+    env.model('ReactorObj', 'init_settings', trusted='Reactor.init_settings (checked natively over the whole option '
+                                                     'registry, see extra())')(lambda I, self, job: None)
+    excs = (R.NotFound, R.NotPrivileged, R.NotAuthored, TypeError)
+
+    def outcome(I, classes, what):
+        k = I.choose_n(len(classes) + 2, what)
+        if k < len(classes):
+            e = I.make_exception(classes[k], ['kw'], {})
+            if classes[k] is not TypeError:
+                I.heap[e.oid]['keyword'] = I.fresh('keyword', 'str', is_input=False)
+            raise TargetExc(e)
+        if k == len(classes):
+            # a handler answered with a message
+            raise TargetExc(I.make_exception(X.TemplateException, [], {}))
+
+    @env.model('ReactorObj', 'handle_options', trusted='Reactor.handle_options: applies the options of one comment or '
+                                                       'raises NotFound / NotPrivileged / NotAuthored / TypeError / a '
+                                                       'message')
+    def handle_options(I, self, job, text, prefix, privileged=False, authored=False):
+        outcome(I, excs, 'handle_options')
+
+    @env.model('ReactorObj', 'handle_commands', trusted='Reactor.handle_commands: runs the command of one comment (its '
+                                                        'handler answers by raising a message) or raises NotFound / '
+                                                        'NotPrivileged')
+    def handle_commands(I, self, job, text, prefix, privileged=False):
+        I.ghost['trace'] = I.ghost['trace'] + (('command_scan', text),)
+        outcome(I, excs[:2], 'handle_commands')
+    env.exc_str = lambda I, e: SStr(I.fresh_term('str(err)', smt.STR, False))
+    env.site_hooks[(HC, 'handle_commands')] = site_commands_after_last_robot_message
+    env.loop(HC, 0, None)
+    env.loop(HC, 1, inv_no_robot_comment_seen, top_level=True)
+
+
+def inv_no_robot_comment_seen(_i, _seq, job):
+    # every comment visited so far (most recent first) is not the robot's
+    return all(_seq[k].author != job.settings.robot for k in range(_i))
+
+
+def site_commands_after_last_robot_message(job, comment, _i, _seq, call_args):
+    # a comment is looked at for a command only if it was posted after the robot's last message: it is
+    # the _i-th most recent comment and neither it nor any more recent comment is the robot's
+    cs = job.pull_request.comments
+    return (comment is cs[len(cs) - 1 - _i] and comment is _seq[_i] and call_args[1] == comment.text
+            and all(_seq[k].author != job.settings.robot for k in range(_i + 1)))
+
+
+def ens_hc_events(job, out, G):
+    return True
 
 
 # ---------------------------------------------------------------- find_comment
@@ -185,7 +245,10 @@ def contracts(env):
                            ('command_answers_are_always_posted', ens_nu_command_answer_posted)],
                   covers=['return'])
     env.allow_inline('bert_e.workflow.pr_utils:_send_comment')
-    return [fc, sc, nu]
+    hc = Contract(HC, args={'job': 'PullRequestJob'}, setup=trace_setup,
+                  ensures=[('commands_only_in_comments_after_the_robots_last_message', ens_hc_events)],
+                  covers=['return'])
+    return [fc, sc, nu, hc]
 
 
 # ---------------------------------------------------------------- facts
@@ -240,6 +303,11 @@ def extra(rep, tier, seed, budget):
             ok = v is None or v == -1 or v >= 1 or cls is X.PartialMerge
             facts.append(('%s.dont_repeat_if_in_history in {-1, None, n>=1}' % name, ok,
                           {'class': name, 'value': v}))
+    # F-c: Reactor.init_settings gives every job its own copy of every registered default (the function has
+    # no other input than the option registry: run natively over the whole registry)
+    w = native_init_settings()
+    facts.append(('Reactor.init_settings: every job starts from the registered defaults and shares no mutable '
+                  'object with the registry or with an earlier job', w['ok'], w))
     for what, ok, data in facts:
         rep.obligations += 1
         if ok:
@@ -269,6 +337,44 @@ META = {
     ],
     'trusted_base': [],
 }
+
+
+def native_init_settings():
+    import copy
+    from types import SimpleNamespace
+    import bert_e.workflow.gitwaterflow as gwf
+    from bert_e.reactor import Reactor
+    from bert_e.lib.settings_dict import SettingsDict
+    gwf.setup({})
+    opts = Reactor.get_options()
+    snapshot = {k: copy.deepcopy(o.default) for k, o in opts.items()}
+    r = Reactor()
+    job1 = SimpleNamespace(settings=SettingsDict({}, {}))
+    r.init_settings(job1)
+    bad = []
+    for k in opts:
+        if k not in job1.settings or job1.settings[k] != snapshot[k]:
+            bad.append('%s: first job starts from %r, registered default %r' % (k, job1.settings.get(k), snapshot[k]))
+    # what option handlers do: mutate the job's values in place
+    for k in opts:
+        v = job1.settings[k]
+        if isinstance(v, set):
+            v.add('polluted')
+        elif isinstance(v, list):
+            v.append('polluted')
+        elif isinstance(v, dict):
+            v['polluted'] = True
+    job2 = SimpleNamespace(settings=SettingsDict({}, {}))
+    r.init_settings(job2)
+    for k, o in opts.items():
+        if o.default != snapshot[k]:
+            bad.append('%s: registered default changed to %r by a job' % (k, o.default))
+        if job2.settings[k] != snapshot[k]:
+            bad.append('%s: second job starts from %r instead of %r' % (k, job2.settings[k], snapshot[k]))
+        if isinstance(snapshot[k], (set, list, dict)) and (job2.settings[k] is o.default
+                                                           or job2.settings[k] is job1.settings[k]):
+            bad.append('%s: mutable default object shared between jobs' % k)
+    return {'ok': not bad, 'options': sorted(opts), 'problems': bad}
 
 
 # ---------------------------------------------------------------- native witness for the command facts
